@@ -1160,6 +1160,40 @@ pub fn plant(base: &AppSpec, rule: usize, raw: u16) -> Option<Planted> {
             nontrivial = needed.iter().find(|(t, _)| *t == s).is_some_and(|(_, d)| *d >= 2);
             what = format!("singleton T{s} now takes the request-scoped &T{r}");
         }
+        3 if raw % 3 == 0 => {
+            // the same rule for a *generic* singleton constructor: registered in the root blueprint and again in a
+            // nested one, instantiated with different types in the two blueprints
+            let singles: Vec<usize> = (0..spec.types.len()).filter(|t| spec.types[*t].life == Life::Singleton && spec.types[*t].view_of.is_none() && spec.bp.iter().any(|r| matches!(r, Reg::Ctor { ty, .. } if ty == t))).collect();
+            if singles.len() < 2 {
+                return None;
+            }
+            let a = singles[choose(singles.len())];
+            let b = *singles.iter().find(|t| **t != a)?;
+            let direct = |bp: &Vec<Reg>, spec: &AppSpec| bp.iter().filter_map(|x| if let Reg::Comp { idx } = x { Some(*idx) } else { None }).find(|c| spec.comps[*c].kind == CompKind::Handler && !spec.comps[*c].route.as_ref().is_some_and(|r| r.bulk));
+            let root_h = direct(&spec.bp, &spec)?;
+            let mut ni = spec.bp.iter().position(|r| matches!(r, Reg::Nest { bp, .. } if direct(bp, &spec).is_some()));
+            if ni.is_none() {
+                // move another root route into a nest
+                let pos = spec.bp.iter().rposition(|r| matches!(r, Reg::Comp { idx } if *idx != root_h && spec.comps[*idx].kind == CompKind::Handler && !spec.comps[*idx].route.as_ref().is_some_and(|r| r.bulk)))?;
+                let r = spec.bp.remove(pos);
+                spec.bp.push(Reg::Nest { prefix: Some("/planted".into()), domain: None, bp: vec![r] });
+                ni = Some(spec.bp.len() - 1);
+            }
+            let ni = ni?;
+            let nested_h = if let Reg::Nest { bp, .. } = &spec.bp[ni] { direct(bp, &spec)? } else { return None };
+            // no other use of the singleton wrapper anywhere
+            for c in spec.comps.iter_mut() {
+                c.gens.retain(|(k, _)| *k % 4 != 0);
+            }
+            spec.comps[root_h].gens.push((0, a));
+            spec.comps[nested_h].gens.push((0, b));
+            if let Reg::Nest { bp, .. } = &mut spec.bp[ni] {
+                bp.insert(0, Reg::Gen { kind: 0, concrete_for: None });
+            }
+            spec.bp.insert(0, Reg::Gen { kind: 0, concrete_for: None });
+            nontrivial = true;
+            what = format!("the generic singleton constructor g_s<T> is registered in the root blueprint (used there as GS<T{a}>) and again in a nested blueprint (used there as GS<T{b}>)");
+        }
         3 => {
             let singles: Vec<usize> = needed.iter().map(|(t, _)| *t).filter(|t| spec.types[*t].life == Life::Singleton).collect();
             if singles.is_empty() {
